@@ -183,6 +183,7 @@ func (w *world) compileDir(dir string, sender util.Uint160) *neotest.Contract {
 	ct := neotest.CompileFile(w.t, sender, dir, filepath.Join(dir, "config.yml"))
 	cp := *ct
 	cp.Hash = state.CreateContractHash(sender, ct.NEF.Checksum, ct.Manifest.Name)
+	chainx.CoverTrack(&cp)
 	return &cp
 }
 
